@@ -67,6 +67,43 @@ pub fn iter_adaptors(_args: &[String]) -> String {
             }
         }
     }
+    // ---- provided iterator methods that may be overridden: nth / skip / step_by / last on a bar whose finish
+    // behaviour does not rewrite the position (no length, Abandon): the position is the number of items pulled
+    for n in [0usize, 3, 10] {
+        for mode in 0..6 {
+            let pb = ProgressBar::hidden().with_finish(ProgressFinish::Abandon);
+            let mut it = (0..n as u64).progress_with(pb.clone());
+            let what: String = match mode {
+                0 => format!("nth(1) -> {:?}", it.nth(1)),
+                1 => format!("nth(20) -> {:?}", it.nth(20)),
+                2 => format!("skip(2).count() -> {}", it.skip(2).count()),
+                3 => format!("skip(50).next() -> {:?}", it.skip(50).next()),
+                4 => format!("step_by(3).count() -> {}", it.step_by(3).count()),
+                _ => format!("last() -> {:?}", it.last()),
+            };
+            // items pulled from the source by each call on a plain range of n items
+            let pulled = match mode {
+                0 => n.min(2),
+                1 | 2 | 3 | 5 => n,
+                _ => n,
+            };
+            tried += 1;
+            if pb.position() != pulled as u64 {
+                return fail("C17 the position advances by exactly the items taken from the wrapped iterator", format!("n={} {}: position {} expected {}", n, what, pb.position(), pulled));
+            }
+        }
+    }
+    {
+        // read_to_string appends: only the appended bytes were transferred
+        let pb = ProgressBar::hidden();
+        let mut w = pb.wrap_read(Cursor::new(b"world".to_vec()));
+        let mut s = String::from("hello ");
+        let r = w.read_to_string(&mut s);
+        tried += 1;
+        if r.ok() != Some(5) || s != "hello world" || pb.position() != 5 {
+            return fail("C17 read_to_string counts the bytes read (the destination may already hold text)", format!("position {} expected 5", pb.position()));
+        }
+    }
     // ---- Read: short reads, errors, read_exact, read_to_string
     let data: Vec<u8> = (0..97u8).collect();
     for chunks in [vec![1usize], vec![5, 0, 3], vec![64], vec![2, usize::MAX, 4], vec![usize::MAX]] {
